@@ -123,6 +123,17 @@ def single_world(expr):
     return True
 
 
+def contradictory_subscripts(expr):
+    """a leaf one of whose variables carries x and x' of the same variable in its subscript set, or None"""
+    for leaf in S.leaves(expr):
+        ch, pa = (leaf[1], leaf[2]) if leaf[0] == "P" else (leaf[2], leaf[3])
+        for x in ch + pa:
+            names = [int(n) for n, _ in x[4]]
+            if len(set(names)) != len(names):
+                return x
+    return None
+
+
 def _judge(case, res, exc, n_models):
     """(failure message, kind) for one result of the real code on an in-domain case"""
     g = {"nodes": G.all_nodes(case["g"]), "di": case["g"]["di"], "bi": case["g"]["bi"]}
@@ -135,8 +146,25 @@ def _judge(case, res, exc, n_models):
     if expr == "zero":
         w = S.check_zero(g, ev, case.get("seed", 0), n_models=n_models)
         return (None, None) if w is None else (f"Zero returned for an event of positive probability: {w}", "zero")
+    bad = contradictory_subscripts(expr)
+    if bad is not None:
+        # the evaluator has no opinion on such a term (it is not a distribution), so it must be rejected here
+        return (f"estimand {expr} contains the term {bad} whose subscript set gives one variable both values: it denotes "
+                "nothing, so it cannot equal P(event)"), "illformed"
     w = S.check_estimand(g, ev, expr, case.get("seed", 0), n_models=n_models)
     return (None, None) if w is None else (f"estimand {expr} differs from P(event): {w}", "value")
+
+
+def in_fragment(case):
+    """the NAMED FRAGMENT of Props/C07.lean (`InFragment`): a non-empty well-formed event over variables of the graph all of
+    whose keys carry ONE subscript set (possibly empty: all factual), with unstarred values and unstarred subscripts
+    (P(y_x) with x, y the unstarred values).  Inside it ID* is proved sound, so ANY oracle failure there is a violation."""
+    ev = case["event"]
+    if not ev or case.get("malformed") or not C18._in_domain(case):
+        return False
+    if len({json.dumps(sorted([int(n), s_] for n, s_ in var[4])) for var, _ in ev}) != 1:
+        return False
+    return all(val == "m" for _, val in ev) and all(s_ == "m" for var, _ in ev for _, s_ in var[4])
 
 
 def _evaluate(case, n_models=8, with_unpatched=True):
@@ -166,7 +194,9 @@ def _evaluate(case, n_models=8, with_unpatched=True):
             if fail:
                 strategy = strat_of.get(json.dumps(r))
                 break
-    return {"by_order": by_order, "unpatched": r0, "fail": fail, "kind": kind, "in_domain": dom, "strategy": strategy}
+    frag = in_fragment(case)
+    return {"by_order": by_order, "unpatched": r0, "fail": fail, "kind": kind, "in_domain": dom, "strategy": strategy,
+            "in_fragment": frag}
 
 
 # ------------------------------------------------------------------------------------------ locating a failure in the recursion
@@ -245,6 +275,16 @@ def _is_self_intervened(v):
     return any(i.name == v.name for i in getattr(v, "interventions", ()))
 
 
+def _independent_conflicts(nsi_nodes, event):
+    """line 8 of ID* (Shpitser & Pearl), written from the paper, independent of get_conflicts: some subscript x of a node of
+    the (non-self-intervened part of the) counterfactual graph and some x' among the values / subscripts of the event name the
+    same variable with different values"""
+    subs = {(i.name, bool(i.star)) for n in nsi_nodes for i in getattr(n, "interventions", ())}
+    evid = {(val.name, bool(val.star)) for val in event.values()}
+    evid |= {(i.name, bool(i.star)) for k in event for i in getattr(k, "interventions", ())}
+    return sorted((a, sa, sb) for a, sa in subs for b, sb in evid if a == b and sa != sb)
+
+
 def _local_class(node):
     """(step, tags): which step of the blamed call produced the answer and which of the known defect patterns are present
     there.  step 'line6' (district decomposition) / 'line9' (base case) / None (something else: keyed exactly)."""
@@ -288,6 +328,10 @@ def _local_class(node):
         cf = node["cg"][0]
         nsi = [n for n in cf.nodes() if not _is_self_intervened(n)]
         tags = set()
+        if _independent_conflicts(nsi, node["cg"][1]):
+            # lines 7-8 of ID*, re-implemented from the paper: an estimand although a subscript of the graph contradicts a
+            # value / subscript of the event.  Never listed: the unmutated code refuses here.
+            return "line9", ["A0:line-8-conflict-present-but-an-estimand-was-returned"]
         if len({n.name for n in nsi}) < len(nsi):
             tags.add("D1:two-copies-of-a-variable-reach-line-9")
         worlds = {frozenset(n.interventions) if isinstance(n, CounterfactualVariable) else frozenset() for n in nsi}
@@ -300,6 +344,9 @@ def _local_class(node):
 def _coarse_key(case, r):
     """finding key of a wrong value / wrong Zero located in the recursion: (kind, step of the blamed call, defect patterns
     present at that step); None when the failure cannot be located (then the shrunk input is the key)"""
+    if r.get("in_fragment"):
+        # never listed: the fragment is covered by a theorem, nothing that fails inside it can be a known finding
+        return json.dumps(["IN-FRAGMENT", r["kind"]])
     if r["kind"] not in ("value", "zero"):
         return None
     try:
@@ -334,7 +381,8 @@ def run_python(case):
             "answer": shape, "order_dependent": len(distinct) > 1, "unpatched_differs": r0 not in by_order,
             "in_domain": r["in_domain"], "has_bidirected": bool(case["g"]["bi"]),
             "single_world_leaves": all(single_world(x[1]) for x in by_order if x[0] == "ok"),
-            "failure_kind": r["kind"]}
+            "failure_kind": r["kind"], "in_fragment": r["in_fragment"],
+            "in_fragment_past_line3": bool(r["in_fragment"] and past3)}
     nontrivial = r["in_domain"] and K.n_worlds(ev) >= 1 and bool(case["g"]["di"] or case["g"]["bi"]) and past3 and \
         shape in ("P", "sum", "prod", "unidentifiable", "zero")
     out = {"out": ["orders", by_order], "fail": r["fail"], "nontrivial": bool(nontrivial), "tags": tags}
@@ -382,12 +430,40 @@ def case_key(case):
     return SHRINK.shrink_to_key(case, r["kind"])[1]
 
 
+def _shrink_same_key(case, key0, budget=120):
+    """greedy shrinking that keeps the LOCATED finding key (kind, blamed step, defect pattern): shrinking by failure kind alone
+    can slide from a new defect into a neighbouring input that only shows a listed one (seen with conflict detection
+    disabled: every replay shrank into F10/M1)"""
+    cur = {k: case[k] for k in ("g", "event", "seed") if k in case}
+    cur["g"] = {"nodes": G.all_nodes(cur["g"]), "di": cur["g"]["di"], "bi": cur["g"]["bi"]}
+    improved = True
+    while improved and budget > 0:
+        improved = False
+        for cand in K.shrink_event_case(cur, keys=("event",)):
+            budget -= 1
+            if budget <= 0:
+                break
+            try:
+                r = _evaluate(cand, with_unpatched=False)
+                ok = bool(r["fail"]) and _coarse_key(cand, r) == key0
+            except Exception:
+                continue
+            if ok:
+                cur, improved = cand, True
+                break
+    return cur
+
+
 def shrink(case):
     if case.get("_noshrink"):
         return
     r = _evaluate(case)
     if r["fail"]:
-        small = SHRINK.shrink_fully(case, r["kind"])     # a small replay; the finding key is computed on the ORIGINAL input
+        key0 = _coarse_key(case, r)
+        if key0 is not None:
+            small = _shrink_same_key(case, key0)
+        else:
+            small = SHRINK.shrink_fully(case, r["kind"])     # a small replay; the finding key is computed on the ORIGINAL input
         yield dict(small, _noshrink=True)
 
 
